@@ -2675,6 +2675,10 @@ where
             100000
         };
 
+        #[cfg(comrak_verif)]
+        if crate::verif::stop_after_blocks() {
+            return;
+        }
         self.process_inlines();
         if self.options.extension.footnotes {
             self.process_footnotes();
